@@ -220,6 +220,11 @@ def execute(scn):
             whole = common.capture_print(mk(p, SimReader(data)), -1)
         except Exception:
             continue
+        p = common.new_parser(color=False, show_tid=True)
+        listing, lexc = common.drain(lambda: mk(p, SimReader(data)))
+        if lexc is None and whole != ''.join(str(x) + '\n' for x in listing):
+            viols.append({'tag': 'count-limit-wrong-number', 'sig': 'v%d:%s' % (ver, view),
+                          'detail': 'count=-1 printed %d lines, the listing has %d items' % (whole.count('\n'), len(listing))})
         for c in scn.get('counts', []):
             bump('probe:count_limit')
             bump('fault:stop_after')
